@@ -3,11 +3,15 @@ mod c12;
 mod cancel;
 mod checks;
 mod checks2;
+mod checks3;
 mod concurrent;
+mod crash;
+mod toolcheck;
 mod exec;
 mod faults;
 mod gen;
 mod gen2;
+mod gen3;
 mod minimize;
 mod model;
 mod ops;
